@@ -1,5 +1,5 @@
 (* CacheRbasex.v — state machine of the caches of abel/rbasex.py: globals
-   _prm, _weights, _dst, _ibs (function _profiles, _get_image_bs) and
+   _prm, _weights, _dst, _ibs, _ibs_prm (function _profiles, _get_image_bs) and
    _bs_prm, _bs, _trf, _tri_full, _tri_prm, _tri (get_bs_cached, _load_bs,
    _save_bs), cache_cleanup, basis_dir_cleanup.
 
@@ -240,7 +240,8 @@ Definition stage2 (s1 : st) (new_bs : bool) (b : rcont) (rmax reg order : nat) (
     (* np.eye(Rmax + 1) / diag([..] * (Rmax + 1)) meet matrices of another size
        (only possible with a basis left under a wrong key) *)
     else if negb (r_rmax b =? rmax) &&
-            (((reg =? 0) && match tri_full s2 with None => true | Some _ => false end) ||
+            (negb (vid =? 0) ||       (* a mask of another length indexes the matrices *)
+             ((reg =? 0) && match tri_full s2 with None => true | Some _ => false end) ||
              (reg =? 2) || (reg =? 3))
     then (s2, new_bs, Some EShape)
     else if reg =? 0 then
@@ -261,6 +262,8 @@ Definition finish_bs (s1 : st) (new_bs : bool) (b : rcont) (rmax order : nat) (o
     | Some a => (s1, Ret a)
     | None =>
         let a := AFwd b vid in
+        if negb (r_rmax b =? rmax) && negb (vid =? 0) then (s1, Raise EShape)   (* mask(Pn.T.copy()) *)
+        else
         if new_bs then
           match save_bs dir rmax order odd b None (dk s1) with
           | None => (s1, Raise EOther)
@@ -330,7 +333,9 @@ Definition step_call (s : st) (c : call) : st * res rres :=
             match c_geom c with
             | None => (s2, Ret {| q_pid := pid; q_wver := wver; q_a := a; q_img := None; q_want := None |})
             | Some g =>
-                let used := match ibs s2 with Some i => i | None => g end in
+                (* _get_image_bs: the cached arrays are reused only when _ibs_prm ==
+                   [height, width, row], otherwise rebuilt for the requested geometry *)
+                let used := g in
                 (set_profiles s2 (prm s2) (wobj s2) (dst s2) (Some used) false,
                  Ret {| q_pid := pid; q_wver := wver; q_a := a; q_img := Some used; q_want := Some g |})
             end
@@ -425,8 +430,8 @@ Definition fresh (o : op) : res rres :=
   | _ => Raise EOther
   end.
 
-(* the image basis in use was built for another geometry: the model does not
-   predict whether the assembly then raises or returns a wrong image *)
+(* (historical: before the image basis was keyed by its geometry a foreign
+   basis could be in use; now only EShape outcomes are compared loosely) *)
 Definition ibs_mismatch (r : res rres) : bool :=
   match r with
   | Ret q => negb (geom_eqb (q_img q) (q_want q))
@@ -536,13 +541,7 @@ Definition hazard (s : st) (o : op) : bool :=
        negb (match dst s with
              | DOk _ _ v r vid => (v =? c_wver c) && (r =? c_rmax c) && (vid =? c_vid c)
              | _ => false
-             end)) ||
-      (* the cached image basis is reused for another output geometry *)
-      (reuses_dst s c &&
-       match ibs s, c_geom c with
-       | Some i, Some g => negb (geom_eqb (Some i) (Some g))
-       | _, _ => false
-       end)
+             end))
   | GetBs _ _ _ _ _ _ _ _ => true    (* _trf / _tri are not keyed by `valid`: see accessor_mask_refuted *)
   | Seed d k c =>
       match c with
